@@ -6,7 +6,7 @@ from . import c01, c05, c07, c08
 TRACE = "FaultObsTrace"
 FAULTY = [
     {"t": "map", "fn": "raise"}, {"t": "map", "efn": "raise"}, {"t": "map", "efn": "reraise"},
-    {"t": "flat_map", "fn": "raise"}, {"t": "flat_map", "fn": "nonfuture"},
+    {"t": "flat_map", "fn": "raise"}, {"t": "flat_map", "fn": "nonfuture"}, {"t": "flat_map", "efn": "nonfuture"},
     {"t": "retry", "max": 3, "sleep": 100, "policy": "raise_should"}, {"t": "retry", "max": 3, "sleep": 100, "policy": "raise_sleep"},
     {"t": "throttle", "count": 2, "count_fn": True}, {"t": "poll", "mode": "first"}, {"t": "timeout", "T": 100000},
     {"t": "retry", "max": 2, "sleep": 100}, {"t": "throttle", "count": 1}, {"t": "cos"},
